@@ -1,5 +1,6 @@
 import SeataModel.Driver.ATParse
 import SeataModel.AT.World
+import SeataModel.AT.InsertRoute
 namespace Seata.Driver.AT
 open Seata Seata.DB Seata.AT Seata.Driver Seata.Driver.ATParse
 
@@ -179,6 +180,18 @@ def handle (ws : List String) : String :=
         let maxId := rows.foldl (fun m r => match r.head? with | some (.int i) => max m i.toNat | _ => m) 0
         let st := runScript { sc := sc, cfg := cfg, w := { t := rows }, autoNext := if auto then maxId + 1 else 0, autoStep := if autoC == '2' then 2 else 1 } script none
         joinSp st.out
+  | "route" :: verb :: rowToks =>
+    -- which executor records an INSERT-like statement, or that it is refused: every row as `k` (gives its key), `u`
+    -- (gives the values of another unique index), `ku`, or `-` (neither)
+    let v : Option InsertRoute.Verb := match verb with
+      | "insert" => some .insert | "ignore" => some .ignore | "replace" => some .replace | "onduplicate" => some .onDuplicate
+      | _ => none
+    let row (t : String) : InsertRoute.RowInfo := { keyGiven := t.contains 'k', otherUniqueGiven := t.contains 'u' }
+    match v with
+    | none => "bad-op"
+    | some v => match InsertRoute.route v (rowToks.map row) with
+      | .refuse => "refused"
+      | _ => "runs"
   | _ => "bad-op"
 
 end Seata.Driver.AT
